@@ -1791,7 +1791,7 @@ def remove_silence_from_performed_part(ppart):
                 c_idxs = np.where(cta[:, 0] >= start_time)[0]
 
                 c_times = cta[c_idxs, 0]
-                if start_time not in c_times:
+                if start_time not in c_times and np.any(cta[:, 0] < start_time):
                     c_times = np.r_[start_time, c_times]
 
                 c_values = cinterp(c_times)
